@@ -522,6 +522,8 @@ pub fn tokenize<'a>(
     let mut comment_group = Vec::new();
     let mut comment_was_last: Option<Token> = None;
     loop {
+        #[cfg(ucg_verif)]
+        crate::verif::tick("tokenizer::tokenize");
         if let Result::Complete(_, _) = eoi(i.clone()) {
             break;
         }
